@@ -95,6 +95,19 @@ def _stencil_of(ex, store):
         cf = resolve_aranges(ex, store, coef)
         cf = norm_rat(cf.subs(subs))
         out.append(dict(offset=tuple(off), coef=cf, ref=ref, rid=rid))
+    # two loads of the same entry are one term of the recurrence
+    merged = {}
+    order = []
+    for t in out:
+        key = tuple(str(o) for o in t["offset"])
+        if key in merged and all(not isinstance(o, tuple) for o in t["offset"]):
+            merged[key]["coef"] = norm_rat(merged[key]["coef"] + t["coef"])
+        else:
+            if key in merged:
+                key = key + (len(order),)
+            merged[key] = t
+            order.append(key)
+    out = [merged[k] for k in order]
     const = resolve_aranges(ex, store, const).subs(subs) if const != 0 else sp.Integer(0)
     return out, const, tsyms, subs
 
